@@ -92,6 +92,7 @@ func init() {
 }
 
 func runC13(c *report.Ctx) {
+	checkErrorIdentity(c, scopeAgentHandlers, nil, 3)
 	c.Clause("1 automata")
 	for _, spec := range []fsmSpec{externalFSM(), internalFSM()} {
 		m := extractFSM(c, spec)
